@@ -7,6 +7,7 @@ import (
 	"flag"
 	"fmt"
 	"os"
+	"runtime/debug"
 	"runtime/pprof"
 	"time"
 
@@ -15,6 +16,8 @@ import (
 )
 
 func main() {
+	// unbounded recursion of the code under test ends the worker early (default limit: 1 GB)
+	debug.SetMaxStack(128 << 20)
 	prop := flag.String("prop", "", "property id")
 	tier := flag.String("tier", "quick", "quick|thorough")
 	list := flag.Bool("list", false, "list units")
